@@ -28,7 +28,7 @@ META = {
              "partitions, >=4 rows and >=2 jobs open at once"),
     "abstract_measure": "distinct (op, shuffle_method, key kind) triples",
     "gates": {"quick": {"disk": 1200, "tasks": 1200, "multi_stage_tasks": 300, "empty_partition": 1200,
-                        "multi_open": 2000, "na_keys": 500},
+                        "multi_open": 2000, "na_keys": 500, "cat_nonlexical_order": 400},
               "thorough": {"disk": 1200}},
     "anchors": ["dask/dataframe/dask_expr/_shuffle.py", "dask/dataframe/shuffle.py"],
     "real": ["dask.dataframe.dask_expr (from_delayed/from_pandas, Shuffle/TaskShuffle/DiskShuffle, SortValues, "
@@ -79,9 +79,15 @@ def make_frame(tape, cfg):
     elif kind == "float_nan":
         k = pd.Series([np.nan if v == 0 else v / 2.0 for v in raw], dtype="float64")
     else:
-        k = pd.Series(pd.Categorical([f"c{v}" for v in raw], categories=[f"c{i}" for i in range(card)]))
+        # category order is a drawn permutation: pandas orders categoricals by category, not by value
+        cats = [f"c{i}" for i in range(card)]
+        for i in range(card - 1, 0, -1):
+            j = tape.draw(i + 1, "catperm")
+            cats[i], cats[j] = cats[j], cats[i]
+        k = pd.Series(pd.Categorical([f"c{v}" for v in raw], categories=cats,
+                                     ordered=tape.chance(1, 2, "ordered")))
     df = pd.DataFrame({"k": k, "w": [tape.draw(3, "w") for _ in range(n)], "v": np.arange(n)})
-    if tape.chance(1, 3, "presorted") and kind != "cat":
+    if tape.chance(1, 3, "presorted"):
         # input already ordered on the key (duplicates then tend to sit on partition boundaries)
         df = df.sort_values("k", kind="stable", na_position="last").reset_index(drop=True)
         df["v"] = np.arange(n)
@@ -127,9 +133,8 @@ def run_one(tape, cfg):
         out.probe("na_keys")
     if method == "tasks" and nout > max_branch:
         out.probe("multi_stage_tasks")
-    if kind == "cat" and op in ("set_index",):
-        out.status = "discard"      # categorical index sorting semantics differ by design
-        return out
+    if kind == "cat" and list(df["k"].cat.categories) != sorted(df["k"].cat.categories):
+        out.probe("cat_nonlexical_order")
     spill = os.path.abspath("spill")
     shutil.rmtree(spill, ignore_errors=True)
     os.makedirs(spill)
@@ -203,7 +208,7 @@ def run_one(tape, cfg):
                     g2 = want.groupby(level=0)["v"].apply(lambda s: sorted(s)).to_dict()
                     if g1 != g2:
                         problem = ("set_index_rows_changed", "rows moved between index values")
-                    if r.known_divisions and problem is None:
+                    if r.known_divisions and problem is None and kind != "cat":
                         divs = r.divisions
                         last = len(parts) - 1
                         for i, p in enumerate(parts):
